@@ -52,6 +52,7 @@ type Conn struct {
 	rbuf        []byte
 	peerClosed  int // 0 open, 1 FIN (EOF after buffered data), 2 reset
 	localClosed bool
+	earlyNow    bool // inside Transport.Write in early-reply mode: answers are delivered inline
 	closeCalls  int
 	wbuf        []byte
 	nC2B        int
@@ -285,21 +286,15 @@ func (c *Conn) Write(p []byte) (int, error) {
 		s.log(Rec{Kind: "tx", Conn: c.k, N: f.n, P: pkt})
 		if s.sc.Cfg.EarlyReply && !s.race {
 			// a very fast peer: the answer is readable before Write returns and the
-			// reader goroutine gets to run before the writer goes on
-			s.log(Rec{Kind: "bproc", Conn: c.k, N: f.n, P: pkt})
-			resps, closeAfter := s.broker.handle(c, f.n, pkt)
-			for _, rp := range resps {
-				c.mu.Lock()
-				m := c.nB2C
-				c.nB2C++
-				c.mu.Unlock()
-				if c.deliver(EncodeB2C(rp.p)) {
-					s.log(Rec{Kind: "rx", Conn: c.k, N: m, P: rp.p, S: "early"})
-				}
-			}
-			if closeAfter {
-				c.cut(false, "broker-close")
-			}
+			// reader goroutine gets to run before the writer goes on. Faults
+			// addressed to this packet / its answers apply as usual.
+			c.mu.Lock()
+			c.earlyNow = true
+			c.mu.Unlock()
+			s.broker.process(c, f.n, pkt)
+			c.mu.Lock()
+			c.earlyNow = false
+			c.mu.Unlock()
 			s.probe("early-reply")
 			time.Sleep(time.Nanosecond)
 			continue
@@ -375,6 +370,27 @@ func (c *Conn) send(p *Pkt, raw []byte, class string, extraDelayNs int64, frag [
 	if f := s.faultAt("dropB2C", c.k, m); f != nil {
 		s.fire("dropB2C")
 		s.log(Rec{Kind: "dropb2c", Conn: c.k, N: m, P: p})
+		return m
+	}
+	c.mu.Lock()
+	early := c.earlyNow
+	c.mu.Unlock()
+	if early {
+		// called from inside Transport.Write (early-reply mode): readable at once
+		if c.deliver(raw) {
+			s.log(Rec{Kind: "rx", Conn: c.k, N: m, P: p, S: "early"})
+		}
+		if eofAfter {
+			c.cut(false, "broker-close")
+		}
+		if f := s.faultAt("cutAfterResp", c.k, m); f != nil {
+			s.after(1000, "cutAfterResp", func() {
+				if c.alive() {
+					s.fire("cutAfterResp")
+					c.cut(f.Reset, "cutAfterResp")
+				}
+			})
+		}
 		return m
 	}
 	if frag == nil {
@@ -496,9 +512,19 @@ func (c *Conn) releaseFrags(m int, p *Pkt, raw []byte, class string, frag []int,
 				sz = len(rest)
 			}
 		}
+		// the record precedes the effect (as in engine S): once the last fragment
+		// is readable the client's reaction may be logged at any moment
+		logged := false
+		if sz == len(rest) && c.alive() {
+			s.log(Rec{Kind: "rx", Conn: c.k, N: m, P: p, S: class, V: int64(len(raw))})
+			logged = true
+		}
 		if !c.deliver(rest[:sz]) {
 			if first {
 				s.log(Rec{Kind: "lostb2c", Conn: c.k, N: m, P: p})
+			}
+			if logged {
+				s.log(Rec{Kind: "rxlost", Conn: c.k, N: m, P: p}) // closed in between: never readable after all
 			}
 			return
 		}
@@ -508,7 +534,9 @@ func (c *Conn) releaseFrags(m int, p *Pkt, raw []byte, class string, frag []int,
 			runtimeGosched()
 		}
 	}
-	s.log(Rec{Kind: "rx", Conn: c.k, N: m, P: p, S: class, V: int64(len(raw))})
+	if len(raw) == 0 {
+		s.log(Rec{Kind: "rx", Conn: c.k, N: m, P: p, S: class, V: 0})
+	}
 	if eofAfter {
 		c.cut(false, "script-eof")
 	}
